@@ -702,10 +702,10 @@ func (e *Engine) foreignGlobal(g *ssa.Global, et types.Type) Value {
 func (e *Engine) shouldInit(p *ssa.Package) bool {
 	path := p.Pkg.Path()
 	if strings.HasPrefix(path, "github.com/enfein/mieru/") {
-		if strings.HasSuffix(path, "pb") || strings.Contains(path, "/log") {
+		if strings.Contains(path, "/log") {
 			return false
 		}
-		return true
+		return true // generated *pb packages: only their variable initialisers run (see invokeFn)
 	}
 	return false
 }
